@@ -270,7 +270,7 @@ func runC16(o *Out) {
 			}
 			m := append([]byte(nil), good...)
 			col := (t*7 + n) % n // residue index
-			pos := (col/60)*(10+66) + 10 + (col%60) + (col%60)/10
+			pos := (col/60)*(10+66) + 10 + (col % 60) + (col%60)/10
 			if pos < len(m) && m[pos] != ' ' && m[pos] != '\n' {
 				m[pos] = c
 				blocks = append(blocks, blk{"odd-residue-byte", n, m})
